@@ -3,6 +3,6 @@ CHECKS = [
           technique="property-based testing (rapid): metamorphic relations on the sample key (permutation, duplication, distinct-value-sets normal form, unconfigured fields, separation of different value sets) + statistical keep frequency in a synctest bubble",
           quick=dict(checks=3000, budget_s=45),
           thorough=dict(checks=15000, shards=16, budget_s=300),
-          level_text="Generated field lists and typed traces for the five dynsampler-backed samplers (created through sample.SamplerFactory): keys of related traces are compared with each other (equal under permutation / duplication / normal form / removal of unconfigured fields, different for separable value sets and for different lengths under UseTraceLength); rate >= 1; keep frequency 1/rate on 8000 decisions per trace after one virtual adjustment interval. Exploration: finds order-, co-occurrence- or noise-dependence of the key, collisions and wrong keep rates on the traces the generator reaches; does not prove absence.",
+          level_text="Generated field lists and typed traces for the five dynsampler-backed samplers (created through sample.SamplerFactory): keys of related traces are compared with each other (equal under permutation / duplication / normal form / removal of unconfigured fields, different for separable value sets and for different lengths under UseTraceLength); rate >= 1; keep frequency 1/rate on 8000 decisions per trace after one virtual adjustment interval. Exploration: finds order-, co-occurrence- or noise-dependence of the key, collisions and wrong keep rates on the traces the generator reaches; does not prove absence. Trace members include span events / links; a trace keyed while it is being assembled (key, AddSpan, key) must get the key of the freshly assembled trace; float64 / int64 values around 2^24, 2^53 and beyond float32 range must separate.",
           level_note="Key strings are never re-computed. Look-alike values of different Go types (\"1\"/1/1.0) are not required to separate. wyhash collisions inside distinctValue are not searched for."),
 ]
